@@ -32,6 +32,17 @@ def mode_from_flags(flags, path, is_bytes=False, internal=0):
                   nodotdir=bool(flags & W.NODOTDIR))
 
 
+_FLAGNAMES = [(n, getattr(W, n)) for n in ('CASE', 'IGNORECASE', 'RAWCHARS', 'NEGATE', 'MINUSNEGATE', 'PATHNAME', 'DOTMATCH',
+                                              'EXTMATCH', 'GLOBSTAR', 'BRACE', 'REALPATH', 'FOLLOW', 'SPLIT', 'MATCHBASE', 'NODIR',
+                                              'NEGATEALL', 'FORCEWIN', 'FORCEUNIX', 'GLOBTILDE', 'NOUNIQUE', 'NODOTDIR',
+                                              'GLOBSTARLONG', '_EXTMATCHBASE', '_NOABSOLUTE', '_TRANSLATE', '_ANCHOR')]
+
+
+def flagnames(flags):
+    """'|NAME|NAME|' (sorted as declared) - used by known-finding predicates."""
+    return '|' + '|'.join(n for n, v in _FLAGNAMES if flags & v) + '|'
+
+
 def replay_fn(api, pattern, flags, extra=''):
     def fmt(w, expected):
         return (f"import sys; sys.path.insert(0, {REPO!r})\n"
@@ -43,6 +54,32 @@ def replay_fn(api, pattern, flags, extra=''):
     return fmt
 
 
+ITEM_SECONDS = 20
+
+
+def _alarm(signum, frame):
+    raise TimeoutError(f'{ITEM_SECONDS}s per-obligation budget')
+
+
+def _with_budget(fn):
+    import functools
+    import signal
+
+    @functools.wraps(fn)
+    def wrapped(item):
+        old = signal.signal(signal.SIGALRM, _alarm)
+        signal.alarm(ITEM_SECONDS)
+        try:
+            return fn(item)
+        except TimeoutError as e:
+            return 'open', [('leave_open', (item[1], f'{e}: {P.render(item[2])!r} flags {item[3]}'))]
+        finally:
+            signal.alarm(0)
+            signal.signal(signal.SIGALRM, old)
+    return wrapped
+
+
+@_with_budget
 def fn_item(item):
     """Decide one fnmatch-mode obligation.  item = (prop, obligation, tokens, flags, is_bytes, domain, known)
     domain: 'visible' (C01: non-empty names not starting with `.` unless DOTMATCH) | 'hidden' (C03) | 'all'."""
@@ -64,7 +101,7 @@ def fn_item(item):
             dom = D.dom_hidden_name(m)
         else:
             dom = D.dom_nonempty(m)
-        sig = dict(pattern=txt, flags=flags, mode='fnmatch', bytes=is_bytes)
+        sig = dict(pattern=txt, flags=flags, fl=flagnames(flags), mode='fnmatch', bytes=is_bytes)
 
         def native(w):
             return F.fnmatch(w, pt, flags=flags)
@@ -76,6 +113,7 @@ def fn_item(item):
         return 'broken', [('broke', (f'{P.render(tokens)!r} flags={flags}: ' + traceback.format_exc()[-1500:],))]
 
 
+@_with_budget
 def path_item(item):
     """Decide one glob-mode obligation. item = (prop, obligation, path_ast, flags, is_bytes, domain, known, internal)"""
     prop, obligation, els, flags, is_bytes, domain, known, internal = item
@@ -111,7 +149,7 @@ def path_item(item):
             ds = D.dir_syntax(m)
             must_n = R.s_diff(must_n, ds)
             may_n = R.s_diff(may_n, ds)
-        sig = dict(pattern=txt, flags=flags, mode='glob', bytes=is_bytes, internal=internal)
+        sig = dict(pattern=txt, flags=flags, fl=flagnames(flags | internal), mode='glob', bytes=is_bytes, internal=internal)
 
         def native(w):
             if internal:
@@ -160,6 +198,6 @@ def run_items(chk, fn, items, procs=None):
         if status == 'skipped':
             continue
         lang.apply_ops(chk, ops)
-        if status != 'broken':
+        if status in ('proved', 'known', 'violation'):
             chk.case(key=(P.render(it[2]), it[3], it[4]), nontrivial=True)
     return counts, time.time() - t0
